@@ -348,6 +348,28 @@ class Normalizer:
         if n == 0:
             return None
         x = a[0]
+        # ---- range membership on constants: `(a..=b).contains(&k)`
+        if n == 2 and callee.endswith("::contains") and "::range::" in callee:
+            r_, k_ = a[0], a[1]
+            lo_ = hi_ = None
+            ci = lambda z: z[1] if isinstance(z, tuple) and len(z) == 2 and z[0] == "const" and isinstance(z[1], int) else None
+            if isinstance(r_, tuple) and len(r_) == 4 and r_[0] == "call" and r_[1].endswith("RangeInclusive::<Idx>::new") and len(r_[2]) == 2:
+                lo_, hi_ = ci(r_[2][0]), ci(r_[2][1])
+            elif isinstance(r_, tuple) and len(r_) == 4 and r_[0] == "agg":
+                d_ = dict(r_[3])
+                kind_ = str(r_[1]).rsplit("::", 1)[-1]
+                if kind_ == "RangeInclusive":
+                    lo_, hi_ = ci(d_.get("start")), ci(d_.get("end"))
+                elif kind_ == "Range" and ci(d_.get("end")) is not None:
+                    lo_, hi_ = ci(d_.get("start")), ci(d_.get("end")) - 1
+                elif kind_ == "RangeFrom":
+                    lo_, hi_ = ci(d_.get("start")), 1 << 70
+                elif kind_ == "RangeToInclusive":
+                    lo_, hi_ = 0, ci(d_.get("end"))
+                elif kind_ == "RangeTo" and ci(d_.get("end")) is not None:
+                    lo_, hi_ = 0, ci(d_.get("end")) - 1
+            if lo_ is not None and hi_ is not None and ci(k_) is not None:
+                return ("const", 1 if lo_ <= ci(k_) <= hi_ else 0)
         # ---- iteration over an array literal: a constant table walked by all/any/fold is the unrolled expression
         if is_("Iterator::all", "Iterator::any") and n == 2:
             items = self._array_items(x, depth)
